@@ -31,7 +31,9 @@ UNPROVED = ["read_agrees_spec_full (false: negation proved, F7a/F7c/F7d/F7e)",
             "reemit_unmodified_full (false for the unrepaired GetOriginalDirectory: not_reemit_unmodified_full; the repaired function: "
             "reemit_original_directory, proved for every relicReadable archive; WriteDirectory: reemit_unmodified_readable, exact class canonEnds)",
             "zip_rewrite_preserves_members_full (C03) is refuted without the fixed-layout ZIP64 clause "
-            "(not_zip_rewrite_preserves_members_full, F7e); with it: zip_rewrite_preserves_members_readable"]
+            "(not_zip_rewrite_preserves_members_full, F7e); with it: zip_rewrite_preserves_members_readable",
+            "Read after WriteDirectory on the archives relic itself writes: read_write_directory_own_output (proved; WriteDirectory is not idempotent for "
+            "synthesised ZIP64 entries: write_directory_twice_prepends_twice, F-APPX-ZIP64)"]
 IMPL_PARALLEL = 16
 
 READ_FLAGS = {"eocd-comment": "F7c", "tiny": "F7c", "desc-nosig": "F7d", "zip64-partial": "F7e"}
